@@ -4,6 +4,6 @@ def run(ctx, V):
     import C06
     pmcheck.standard_run(ctx, V, ["alive", "c02", "protocol", "wedge"], extract=["Extract/ExClient.vo", "Extract/ExEnqueue.vo"], n_quick=500)
     # the reply folding (_act_finish, reply_power, 308/309 lines) and the pre-check (dev_check_actions) are tied exactly by R-CLIENT
-    C06.correspond(ctx, V, n=120 if ctx.tier == "quick" else 3000)
+    C06.correspond(ctx, V, n=300 if ctx.tier == "quick" else 6000)
 def replay(ctx, V, path):
     print(json.dumps(json.load(open(path)), indent=1)[:6000]); return 0
